@@ -1,5 +1,7 @@
 """Per-property execution plans: which harness binaries run under which build configuration/profile."""
 
+PX_RULE = "formats = compile-time sample (seeded by VERIF_SEED at build time): syntax set (STANDARD, each of the 18 syntax flags alone, pairs, seeded combinations; decimal, binary/octal/hex with base prefix and suffix, radix 3, C hex floats), separator set (all 15 I/L/T/C combinations uniformly, one component only, seeded mixed triples; separators _ , '; special flag), 64+ prebuilt language formats decoded through the getters, radix-only formats for builds without `format`; 3 option variants per format (default punctuation, seeded custom decimal point / exponent character / nan-inf-infinity strings, specials disabled). inputs per (format, options): ALL strings of length <= 4 (3 for custom options; thorough 5) over {signs, 0, 1, top digit both cases, point, exponent both cases, separator, prefix/suffix both cases, junk}, 12k (thorough 120k) shape-directed random literals with separators sprinkled at leading/internal/trailing/consecutive positions, special-string neighbourhoods (prefixes, case flips, one-byte extensions, separators inside), 7..800-digit components, arbitrary byte strings, 700..16384-byte inputs; f64 + i64 (+ f32, u8 on every 4th format), complete and partial; plus the default API for all 14 types on every 1-2 byte string, byte splices into 70 seeds, 200k random strings and 16 KiB inputs. Every slice is flush against a PROT_NONE guard page (leading or trailing, alternating)."
+
 
 def run(config, profile, bin, args=(), **kw):
     d = {"config": config, "profile": profile, "bin": bin, "args": list(args)}
@@ -56,16 +58,72 @@ def c07(tier, seed):
     return runs
 
 
+def px_runs(tier, prop, with_invalid=False, with_c10=True):
+    """format-table executors shared by C10, C11, C12, C13, C15, C18 (prop filter)."""
+    a = ["prop=" + prop]
+    runs = []
+    rf_bins = ["px_s0", "px_s1", "px_p0", "px_p1", "px_b0"]
+    if tier == "thorough":
+        rf_bins += ["px_s2", "px_s3", "px_p2", "px_p3", "px_b1", "px_b2"]
+    if with_invalid:
+        rf_bins.append("px_i0")
+    for b in rf_bins:
+        runs.append(run("rf", "rel", b, a, tag=prop))
+    for b in ["px_s0", "px_p0"]:
+        runs.append(run("crf", "rel", b, a, tag=prop))
+        runs.append(run("rf", "dbg", b, a + ["nfmt=16"], tag=prop + "dbg"))
+    if tier == "thorough":
+        for b in ["px_s0", "px_p0"]:
+            runs.append(run("f", "rel", b, a, tag=prop))
+            runs.append(run("cf", "rel", b, a, tag=prop))
+    for c in ["d", "c"] + (["p", "r", "nd"] if tier == "thorough" else []):
+        runs.append(run(c, "rel", "px_std", a + ["nfmt=24"], tag=prop))
+        if with_c10:
+            runs.append(run(c, "rel", "c10", a, tag=prop))
+    if with_c10:
+        runs.append(run("d", "dbg", "c10", a, tag=prop + "dbg"))
+        runs.append(run("rf", "rel", "c10", a, tag=prop))
+    return runs
+
+
+def c10(tier, seed):
+    return px_runs(tier, "C10")
+
+
+def c11(tier, seed):
+    return px_runs(tier, "C11")
+
+
+def c12(tier, seed):
+    return px_runs(tier, "C12", with_c10=False)
+
+
+def c13(tier, seed):
+    return [r for r in px_runs(tier, "C13", with_c10=False) if r["bin"] not in ("px_std",) and not r["bin"].startswith("px_s")]
+
+
+def c15(tier, seed):
+    return px_runs(tier, "C15", with_c10=False)
+
+
 def c19(tier, seed):
     cfgs = ["d", "c", "r", "crf"] if tier == "quick" else ["d", "c", "p", "r", "rf", "crf", "nd", "nc"]
     runs = [run(c, "rel", "c01", ["lossy=1"], tag="lossy") for c in cfgs]
     runs += [run(c, "rel", "c05", ["lossy=1"], tag="lossy") for c in cfgs if c.strip("n") not in ("d", "c", "f", "cf")]
+    # accept/reject/count/error equality of lossy and exact parsing on hostile inputs (format-table executor)
+    runs += [run("rf", "rel", b, ["prop=C19"], tag="C19") for b in ("px_s0", "px_p0")]
+    runs += [run("d", "rel", "px_std", ["prop=C19", "nfmt=24"], tag="C19")]
     return runs
 
 
 PLANS = {
     "C01": c01,
     "C05": c05,
+    "C10": c10,
+    "C11": c11,
+    "C12": c12,
+    "C13": c13,
+    "C15": c15,
     "C06": c06,
     "C07": c07,
     "C19": c19,
@@ -151,6 +209,37 @@ META = {
         "The evidence notes carry the largest distance bucket observed. Includes no-std builds (crate-local libm floor).",
         "assumptions": ["the 2048/256 ulp bound is the property's; the oracle measures it exactly"],
     },
+    "C10": {
+        "rule": PX_RULE + " Judged: no panic (release and debug-assertion builds), no guard-page hit, partial count <= len, error index <= len.",
+        "assumptions": ["a guard page catches out-of-slice access only within one page of the slice; intra-allocation misuse is left to Miri (thorough tier)"],
+    },
+    "C11": {
+        "rule": PX_RULE + " Judged: complete=Ok(v) <=> partial=Ok((v,len)); partial=Ok((v,n)), 0<n<len => complete(bytes[..n])=Ok(v) (NaN by class).",
+        "assumptions": [],
+    },
+    "C12": {
+        "rule": PX_RULE + " Judged (separator-free inputs only): a reference recogniser written from the per-flag documentation tables decides "
+        "derivable / not derivable / undocumented; derivable => accepted with the exactly rounded value of its digits (exact oracle) or the exact "
+        "integer; not derivable => rejected; special strings via the reference matcher.",
+        "assumptions": [
+            "where the rendered table, the prose and the embedded doc-test disagree (e.g. '1.' under required_integer_digits, empty mantissa without "
+            "required_mantissa_digits, prefix/suffix letters that are digits of the radix) either behaviour is accepted (counter c12.unsure)",
+            "which error kind is reported is not judged",
+        ],
+    },
+    "C13": {
+        "rule": PX_RULE + " Judged: (1) accepted input with separators => same value after deleting them; (2) every separator run of an accepted "
+        "input is at a position (leading/internal/trailing, consecutive, per component) the flags enable; (3) inserting 1-3 separators at every "
+        "enabled position of accepted separator-free literals => accepted with the same value (complete and partial); (4) separator-free input "
+        "=> identical result (value, count, error kind and index) in the format and its separator-free counterpart (both compiled).",
+        "assumptions": ["a component made of separators only counts as leading or trailing", "literals with base prefix/suffix letters are not used for insertion (undocumented interplay)"],
+    },
+    "C15": {
+        "rule": PX_RULE + " Judged (parse side): special accepted exactly when, after the sign rules of the format, the rest equals nan/inf/infinity "
+        "(case per flag, separators ignored only with special_digit_separator, never with no_special or None strings); no grammatical number yields "
+        "NaN; signs preserved. The write side (signed zero, NaN without minus, disabled special panics) is judged by the C08 executor.",
+        "assumptions": [],
+    },
     "C19": {
         "rule": "the C01 (decimal) and C05 (all radix formats) workloads parsed with lossy(true): must accept with the full count, never NaN, "
         "correct sign, and be the correctly rounded float or one of its two neighbours (exact oracle); zero and infinity results and exact "
@@ -183,6 +272,11 @@ def replay_c04(body):
     return [f"replay={c['type']}:{c['radix']}:{c['input']}"]
 
 
+def replay_px(body):
+    c = body["case"]
+    return ["prop=" + c["property"], "replay=" + c["input"], "type=" + c["type"]] + (["idx=" + str(c["idx"]), "variant=" + str(c.get("variant", 0))] if "idx" in c else [])
+
+
 def replay_c05(body):
     c = body["case"]
     a = ["replay=" + c["input"], "format=" + c["format"]]
@@ -196,5 +290,5 @@ def replay_c06(body):
     return ["replay=" + c["bits"], "type=" + c["type"], "format=" + c["format"], "prop=" + c["property"]]
 
 
-REPLAY = {"C06": replay_c06, "C07": replay_c06, "C05": replay_c05, "C04": replay_c04, "C01": replay_input, "C02": replay_bits, "C03": replay_c03}
+REPLAY = {"C10": replay_px, "C11": replay_px, "C12": replay_px, "C13": replay_px, "C15": replay_px, "C06": replay_c06, "C07": replay_c06, "C05": replay_c05, "C04": replay_c04, "C01": replay_input, "C02": replay_bits, "C03": replay_c03}
 POST = {}
